@@ -18,6 +18,14 @@ TRUSTED_BASE = [
 ]
 
 
+# evidence level per property (kept in step with MANIFEST.json by gen_manifest.py)
+LEVELS = {'C01': 'other', 'C07': 'other'}
+EXPLAIN = {
+    'C01': 'theorems pending (simulation proof in progress): this run is a three-way differential comparison implementation / Lean reference semantics / Python reference, plus the validators shapeCheck and wfCheck on every compiled program',
+    'C07': 'no theorem for the main statement yet: complete stepping runs of the implementation compared with an independent instrumented reference interpreter (visited lines and variable views at every stop)',
+}
+
+
 class Ctx:
     def __init__(self, pid, tier, seed):
         self.pid, self.tier, self.seed = pid, tier, seed
@@ -189,7 +197,8 @@ def is_crash(resp):
 
 
 # ---------------- finishing ----------------
-def finish(ctx, level='proof', level_note=''):
+def finish(ctx, level=None, level_note=''):
+    level = level or LEVELS.get(ctx.pid, 'proof')
     known = load_known()
     unknown = []
     for key, text, replay in ctx.violations:
@@ -229,6 +238,7 @@ def finish(ctx, level='proof', level_note=''):
     cov['discharged'] = len(ctx.discharged) if ctx.obligations else 0
     cov['checker_cmd'] = 'cd lean && lake build Theo theodrv && lake env lean <audit: #print axioms of every theorem of Theo/Props/%s.lean>' % ctx.pid + ('' if ctx.quick else ' && lake env leanchecker Theo.Props.' + ctx.pid)
     cov['trusted_base'] = TRUSTED_BASE
+    cov['explanation'] = EXPLAIN.get(ctx.pid, 'Lean theorems about a model of the code (audited axioms) + differential correspondence of the model with the implementation on generated inputs + property oracle on the implementation')
     cov['theorems'] = ctx.obligations
     cov['known_findings_hit'] = ctx.known_hits
     cov['broken'] = [b[0] for b in ctx.broken]
